@@ -59,7 +59,7 @@ def lemma_merge_extents(ctx):
         x = z3.Int("x")
         for p in paths:
             if p.status != "return" or not is_ok(p.ret):
-                ctx.fail("C19: merge_extents returns Ok for every sorted extent list", "%s %s (n=%d)" % (p.status, p.msg, n))
+                ctx.fail("C01/C19: merge_extents returns Ok for every sorted extent list", "%s %s (n=%d)" % (p.status, p.msg, n))
                 continue
             out = p.ret.fields[0].attrs["items"]
             if len(out) < len(items):
@@ -69,14 +69,14 @@ def lemma_merge_extents(ctx):
             gaps = [z3.And(items[i].fields[1].t <= x, x < items[i + 1].fields[0].t,
                            items[i + 1].fields[0].t == items[i].fields[1].t + 1) for i in range(len(items) - 1)]
             in_gap = z3.Or(*gaps) if gaps else z3.BoolVal(False)
-            ctx.lemma(eng, "C19: merging never drops coverage (every input byte is in a merged range)", p.pc, z3.Implies(in_input, in_out), info={"n": n})
-            ctx.lemma(eng, "C19: merging adds nothing but the gap between extents it deems adjacent", p.pc,
+            ctx.lemma(eng, "C01/C19: merging never drops coverage (every input byte is in a merged range)", p.pc, z3.Implies(in_input, in_out), info={"n": n})
+            ctx.lemma(eng, "C11/C19: merging adds nothing but the gap between extents it deems adjacent", p.pc,
                       z3.Implies(in_out, z3.Or(in_input, in_gap)), info={"n": n})
             for j, o in enumerate(out):
                 ctx.lemma(eng, "C19: merged ranges are non-empty", p.pc, o.fields[0].t < o.fields[1].t)
                 if j + 1 < len(out):
-                    ctx.lemma(eng, "C19: merged ranges are ordered and non-overlapping", p.pc, o.fields[1].t <= out[j + 1].fields[0].t)
-                ctx.lemma(eng, "C19: merged ranges begin and end at input boundaries", p.pc,
+                    ctx.lemma(eng, "C01/C19: merged ranges are ordered and non-overlapping", p.pc, o.fields[1].t <= out[j + 1].fields[0].t)
+                ctx.lemma(eng, "C11/C19: merged ranges begin and end at input boundaries", p.pc,
                           z3.And(z3.Or(*[o.fields[0].t == e.fields[0].t for e in items]), z3.Or(*[o.fields[1].t == e.fields[1].t for e in items])))
             (ctx.passed if (len(out) == 0) == (n == 0) else ctx.fail)("C19: the merged list is empty only for an empty input", "n=%d out=%d" % (n, len(out)))
     ctx.paths += total_paths
@@ -154,10 +154,10 @@ def lemma_map_extents(ctx):
         for i, c in enumerate(calls):
             ctx.lemma(eng, "C19: every FIEMAP request offers the whole 32-entry page", p.pc, c.args[1].t == 32)
             if i == 0:
-                ctx.lemma(eng, "C19: the first FIEMAP request starts at offset 0", p.pc, c.args[0].t == 0)
+                ctx.lemma(eng, "C01/C19: the first FIEMAP request starts at offset 0", p.pc, c.args[0].t == 0)
             else:
                 prev = calls[i - 1].ret
-                ctx.lemma(eng, "C19: the next FIEMAP page starts at the end of the last extent seen (nothing skipped or repeated)", p.pc,
+                ctx.lemma(eng, "C01/C19: the next FIEMAP page starts at the end of the last extent seen (nothing skipped or repeated)", p.pc,
                           c.args[0].t == prev[-1][0].t + prev[-1][1].t)
         last = calls[-1]
         if last.ret == "unsupported":
@@ -170,16 +170,16 @@ def lemma_map_extents(ctx):
             (ctx.passed if is_err(p.ret) else ctx.fail)("C04/C19: a failing FIEMAP makes map_extents fail", repr(p.ret))
             continue
         if not is_ok(p.ret) or p.ret.fields[0].vname != "Some":
-            ctx.fail("C19: map_extents returns Some(list) when FIEMAP works", repr(p.ret))
+            ctx.fail("C01/C11/C19: map_extents returns Some(list) when FIEMAP works", repr(p.ret))
             continue
         out = p.ret.fields[0].fields[0].attrs["items"]
         allx = [x for c in calls for x in c.ret]
         kinds.add("pages%d" % len(calls))
         if len(out) != len(allx):
-            ctx.fail("C19: every extent of every FIEMAP page is reported, in order (none dropped, none repeated)", "%d reported vs %d returned" % (len(out), len(allx)))
+            ctx.fail("C01/C19: every extent of every FIEMAP page is reported, in order (none dropped, none repeated)", "%d reported vs %d returned" % (len(out), len(allx)))
             continue
         for o, (lo, ln, lastf, shared) in zip(out, allx):
-            ctx.lemma(eng, "C19: a reported range is exactly [fe_logical, fe_logical + fe_length)", p.pc,
+            ctx.lemma(eng, "C01/C11/C19: a reported range is exactly [fe_logical, fe_logical + fe_length)", p.pc,
                       z3.And(o.fields[0].t == lo.t, o.fields[1].t == lo.t + ln.t))
             ctx.lemma(eng, "C19: the shared flag is the FIEMAP_EXTENT_SHARED bit", p.pc, o.fields[2].t == shared)
         # the loop stopped: either the last page was empty or its final extent carried LAST
@@ -187,7 +187,7 @@ def lemma_map_extents(ctx):
         if fin:
             ctx.lemma(eng, "C19: paging stops only at an empty page or at the extent flagged LAST", p.pc, fin[-1][2])
         for c in calls[:-1]:
-            ctx.lemma(eng, "C19: paging continues while the last extent of a page is not flagged LAST", p.pc, z3.Not(c.ret[-1][2]))
+            ctx.lemma(eng, "C01/C19: paging continues while the last extent of a page is not flagged LAST", p.pc, z3.Not(c.ret[-1][2]))
     for k in ("unsupported", "pages1", "pages2"):
         (ctx.passed if k in kinds else ctx.fail)("witness: %s" % k, str(sorted(kinds)))
     ctx.bounds = "<= %d FIEMAP pages of <= %d extents each (the code's page size 32 is checked as the request size, not filled)" % (pages, per_page)
@@ -252,17 +252,17 @@ def lemma_cfr(ctx):
             cfr = [e for e in p.trace if e.name == "cfr"]
             us = [e for e in p.trace if e.name in ("copy_bytes_uspace", "copy_range_uspace")]
             if len(cfr) != 1 or cfr[0].args[0] != "infd" or cfr[0].args[1] != "outfd":
-                ctx.fail("C05: exactly one in-kernel copy attempt, from the source to the destination descriptor", str(trace_names(p)))
+                ctx.fail("C01/C05: exactly one in-kernel copy attempt, from the source to the destination descriptor", str(trace_names(p)))
                 continue
             c = cfr[0]
-            ctx.lemma(eng, "C05: the kernel is asked for exactly the requested byte count", p.pc, c.args[4].t == n.t)
+            ctx.lemma(eng, "C01/C05: the kernel is asked for exactly the requested byte count", p.pc, c.args[4].t == n.t)
             if which == "copy_file_offset":
                 if not (isinstance(c.args[2], IntV) and isinstance(c.args[3], IntV)):
-                    ctx.fail("C05: the offset variant passes explicit offsets for both descriptors", repr(c.args))
+                    ctx.fail("C01/C05: the offset variant passes explicit offsets for both descriptors", repr(c.args))
                 else:
-                    ctx.lemma(eng, "C05: both explicit offsets equal the requested offset", p.pc, z3.And(c.args[2].t == off.t, c.args[3].t == off.t))
+                    ctx.lemma(eng, "C01/C05: both explicit offsets equal the requested offset", p.pc, z3.And(c.args[2].t == off.t, c.args[3].t == off.t))
             elif c.args[2] is not None or c.args[3] is not None:
-                ctx.fail("C05: the cursor variant leaves offset tracking to the kernel", repr(c.args))
+                ctx.fail("C01/C05: the cursor variant leaves offset tracking to the kernel", repr(c.args))
             if isinstance(c.ret, IntV) and c.ret.ty == "u16":
                 is_fb = z3.Or(*[c.ret.t == v for v in FALLBACK])
                 if us:
@@ -283,11 +283,11 @@ def lemma_cfr(ctx):
             else:
                 seen.add("ok")
                 if us:
-                    ctx.fail("C05: no userspace copy after a successful kernel copy (no duplicated bytes)", str(trace_names(p)))
+                    ctx.fail("C01/C05: no userspace copy after a successful kernel copy (no duplicated bytes)", str(trace_names(p)))
                 elif not is_ok(p.ret):
-                    ctx.fail("C05: the kernel's count is returned", repr(p.ret))
+                    ctx.fail("C01/C05: the kernel's count is returned", repr(p.ret))
                 else:
-                    ctx.lemma(eng, "C05: the kernel's count is returned unchanged", p.pc, p.ret.fields[0].t == c.ret.t)
+                    ctx.lemma(eng, "C01/C05: the kernel's count is returned unchanged", p.pc, p.ret.fields[0].t == c.ret.t)
     for k in ("ok", "fallback", "fatal"):
         (ctx.passed if k in seen else ctx.fail)("witness: %s path" % k, str(sorted(seen)))
     ctx.bounds = "loop-free; every errno value, every count <= request, any offset >= 0"
@@ -1052,3 +1052,56 @@ def lemma_uspace_loops(ctx):
     (ctx.passed if back else ctx.fail)("witness: copy_bytes_uspace loop body", "")
     (ctx.passed if eintr else ctx.fail)("witness: EINTR retry path", "")
     ctx.bounds = "one inductive step from an arbitrary loop state: any request size, any offset, any short read/write count, EINTR, failures"
+
+
+def lemma_is_same_file(ctx):
+    """libfs::is_same_file: the identity test CopyHandle::new and the workers' special-file arm rely on (C03).
+    Both paths are resolved *through* symbolic links (stat, not lstat) -- a destination that is a link to the source is
+    the source -- and the answer is `same st_ino and same st_dev`, each taken from the right path."""
+    from props.env import install_env, fs_fact
+    eng = ctx.engine("libfs", loop_bound=2)
+    install_env(ctx, eng)
+
+    def ident(which):
+        def h(eng, st, callee, args, dty):
+            m = deref_ref(eng, st, args[0])
+            if not (isinstance(m, OpaqueV) and "path" in m.attrs):
+                raise EngineAbort("ino()/dev() on a metadata value that does not come from a path")
+            how = "stat" if m.attrs["follow"] else "lstat"
+            return Outcome(IntV(z3.Int("%s_%s_%s" % (which, how, re.sub(r"\W+", "_", m.attrs["path"]))), "u64"),
+                           events=[Event("Metadata::" + which, [m.attrs["path"], how], None)])
+        return h
+    eng.add_summary(r"MetadataExt>::(st_)?ino$", ident("ino"))
+    eng.add_summary(r"MetadataExt>::(st_)?dev$", ident("dev"))
+    fn = fn_named(eng.funcs, "is_same_file")
+    paths = eng.run(fn.name, [RefV(Cell(OpaqueV("Path", "src_path"))), RefV(Cell(OpaqueV("Path", "dst_path")))], State())
+    ctx.paths += len(paths)
+    n_ok = 0
+    for p in paths:
+        names = trace_names(p)
+        if p.status != "return":
+            ctx.fail("is_same_file: returns", "%s %s %s" % (p.status, p.msg, names))
+            continue
+        stats = [e for e in p.trace if e.name in ("Path::metadata", "Path::symlink_metadata")]
+        nm = "C03: is_same_file resolves the destination through symbolic links (stat): a destination that is a link to the source is the source"
+        dst_l = [e for e in stats if e.name == "Path::symlink_metadata" and getattr(e.args[0], "name", "") == "dst_path"]
+        (ctx.fail if dst_l else ctx.passed)(nm, str(names))
+        failed = [e for e in stats if e.ret == "err"]
+        if failed:
+            (ctx.passed if is_err(p.ret) else ctx.fail)("C03/C04: a path that cannot be examined makes is_same_file fail (never 'different')", str(names))
+            continue
+        if not is_ok(p.ret):
+            ctx.fail("is_same_file: Ok when both paths could be examined", str(names))
+            continue
+        n_ok += 1
+        who = sorted(getattr(e.args[0], "name", "?") for e in stats)
+        if who != ["dst_path", "src_path"]:
+            ctx.fail("C03: is_same_file examines exactly its two arguments", str(who))
+            continue
+        how = {getattr(e.args[0], "name", "?"): ("stat" if e.name == "Path::metadata" else "lstat") for e in stats}
+        v = lambda w, path: z3.Int("%s_%s_%s" % (w, how[path], path))
+        same = z3.And(v("ino", "src_path") == v("ino", "dst_path"), v("dev", "src_path") == v("dev", "dst_path"))
+        r = p.ret.fields[0]
+        ctx.lemma(eng, "C03: is_same_file answers exactly 'same inode number and same device', each read from its own path", p.pc, r.t == same)
+    (ctx.passed if n_ok else ctx.fail)("witness: is_same_file success path", "")
+    ctx.bounds = "loop-free; both paths arbitrary, every stat may fail"
